@@ -81,7 +81,7 @@ def inputs_to_json(inputs):
     return {n: [[list(c), v] for c, v in sorted(d.items())] for n, d in inputs.items()}
 
 
-def build_namespace(spec, extents, scalars, sizes, inputs, recorder=None):
+def build_namespace(spec, extents, scalars, sizes, inputs, recorder=None, watch=None):
     """
     The namespace the user is documented to supply, and only that:
     input tensors under <Name>_<RankOrder>, rank extents, scalar operands,
@@ -90,6 +90,8 @@ def build_namespace(spec, extents, scalars, sizes, inputs, recorder=None):
     decl = S.decl_of(spec)
     g = {"Tensor": M.Tensor, "Fiber": M.Fiber}
     rec = recorder or standins.Recorder()
+    rec.ns = g
+    rec.watch = set(watch) if watch else None
     g.update(standins.api(rec))
     g.update(extents)
     g.update(scalars)
@@ -106,12 +108,12 @@ def build_namespace(spec, extents, scalars, sizes, inputs, recorder=None):
     return g, supplied, rec
 
 
-def run_text(text, spec, extents, scalars, sizes, inputs):
+def run_text(text, spec, extents, scalars, sizes, inputs, watch=None):
     """
     exec the emitted text; returns dict(ns=final namespace, supplied=..., snaps=..., rec=..., stats=...)
     raises ProgramError for an exception raised by the program, M.Unsupported for model limits
     """
-    g, supplied, rec = build_namespace(spec, extents, scalars, sizes, inputs)
+    g, supplied, rec = build_namespace(spec, extents, scalars, sizes, inputs, watch=watch)
     snaps = {v: M.snapshot(t) for v, t in supplied.items()}
     M.reset_stats()
     try:
